@@ -663,6 +663,21 @@ impl World {
         id
     }
 
+    /// the next event, if it is the delivery of a datagram to a running node: (wire id, node)
+    pub fn peek_delivery(&self) -> Option<(usize, usize)> {
+        match self.queue.peek() {
+            Some(Reverse(Ev { kind: EvKind::Deliver { wire }, .. })) => {
+                let n = self.node_by_addr(self.wire[*wire].dst)?;
+                if self.nodes[n].cloud.is_some() {
+                    Some((*wire, n))
+                } else {
+                    None
+                }
+            }
+            _ => None,
+        }
+    }
+
     pub fn peek_is_delivery_of(&self, wire_id: usize) -> bool {
         matches!(self.queue.peek(), Some(Reverse(Ev { kind: EvKind::Deliver { wire }, .. })) if *wire == wire_id)
     }
